@@ -14,6 +14,7 @@ func init() {
 			{Name: "H_C12_remove2", Tier: "quick", Opts: ei, What: "EI: n=4, two removals of any two vertices with optional Flush after each", Covers: []string{"live", "exact-clause"}},
 			{Name: "H_C12_levels_remove", Tier: "quick", Opts: ei, What: "EI: n=3 with symbolic level draws, 1..2 removals of any vertices, optional Flush, optional later Add (also with a symbolic level): non-empty, exact, reachable", Covers: []string{"live", "exact-clause"}},
 			{Name: "H_C12_remove_all", Tier: "quick", Opts: ei, What: "EI: n=1..3 vertices all removed (no flush), then 1..2 new vectors: non-empty, exact; Flush afterwards: reachable", Covers: []string{"live", "exact-clause"}},
+			{Name: "H_C12_interleave", Tier: "quick", Opts: ei, What: "EI: 5 steps, each adding the next vector (<=4) or removing any live one: chains of soft-deleted vertices; non-empty, exact", Covers: []string{"live", "exact-clause"}},
 			{Name: "H_C12_reach6", Tier: "quick", Opts: ei, What: "EI: 6 vertices (layer-0 pruning starts) in the region 'five within distance 4, the sixth at distance >= 8': reachability", Covers: []string{}},
 			{Name: "H_C12_t1", Tier: "quick", What: "T1 (all float32): 3 metrics, d<=2, n=2..3: exact k-NN, reachability", Covers: []string{"exact-clause"}},
 			{Name: "H_C12_t1_remove", Tier: "quick", What: "T1: l2 and cosine, n=3, Remove one of the first two (entry point included), optional Flush: non-empty, exact", Covers: []string{"exact-clause"}},
